@@ -38,6 +38,7 @@ type c12Scenario struct {
 	changed   []string // delta: changed or removed names
 	deltaAdd  []c12Doc // delta: documents added to the builder
 	newMeta   bool
+	oldDelta  bool // the old index is itself the result of a full build followed by a delta build (it has sidecars)
 }
 
 func c12Opts(dir string, ver int, shardMax int, sc *c12Scenario) index.Options {
@@ -77,6 +78,7 @@ func c12Gen(tp *simrt.Tape) *c12Scenario {
 	sc.oldShard = []int{40, 90, 200, 100000}[tp.Gen(4)]
 	sc.newShard = []int{40, 90, 200, 100000}[tp.Gen(4)]
 	sc.newMeta = tp.Gen(3) == 0
+	sc.oldDelta = sc.kind != "merging" && tp.Gen(3) == 0
 	// new version: keep / change / remove each old doc, add some
 	for _, d := range sc.oldDocs {
 		switch tp.Gen(3) {
@@ -111,7 +113,7 @@ func c12Gen(tp *simrt.Tape) *c12Scenario {
 }
 
 func (sc *c12Scenario) String() string {
-	return fmt.Sprintf("kind=%s old=%d docs shardMax=%d new=%d docs shardMax=%d changedOrRemoved=%v deltaAdds=%d newMeta=%t", sc.kind, len(sc.oldDocs), sc.oldShard, len(sc.newDocs), sc.newShard, sc.changed, len(sc.deltaAdd), sc.newMeta)
+	return fmt.Sprintf("kind=%s old=%d docs shardMax=%d oldBuiltByFull+Delta=%t new=%d docs shardMax=%d changedOrRemoved=%v deltaAdds=%d newMeta=%t", sc.kind, len(sc.oldDocs), sc.oldShard, sc.oldDelta, len(sc.newDocs), sc.newShard, sc.changed, len(sc.deltaAdd), sc.newMeta)
 }
 
 func modelState(docs []c12Doc, ver int) []string {
@@ -176,6 +178,20 @@ func runC12(t *testing.T, tp *simrt.Tape, keepTrace bool) hx.Result {
 		}
 		if err := os.Rename(tmpName, dstName); err != nil {
 			return hx.Result{HarnessErr: err.Error()}
+		}
+	} else if sc.oldDelta {
+		// full build of an earlier version, then a delta build that rewrites the first
+		// document: the old index consists of two shard generations plus sidecars
+		// (branch versions, file tombstones)
+		pre := append([]c12Doc(nil), sc.oldDocs...)
+		pre[0] = c12Doc{pre[0].name, "PRE " + pre[0].content}
+		if e, _ := c12Build(c12Opts(oldDir, 0, sc.oldShard, nil), pre, nil); e != nil {
+			return hx.Result{HarnessErr: "pre-old build: " + e.Error()}
+		}
+		do := c12Opts(oldDir, 1, sc.oldShard, nil)
+		do.IsDelta = true
+		if e, _ := c12Build(do, []c12Doc{sc.oldDocs[0]}, []string{sc.oldDocs[0].name}); e != nil {
+			return hx.Result{HarnessErr: "old delta build: " + e.Error()}
 		}
 	} else {
 		if e, _ := c12Build(c12Opts(oldDir, 1, sc.oldShard, nil), sc.oldDocs, nil); e != nil {
@@ -295,6 +311,47 @@ func runC12(t *testing.T, tp *simrt.Tape, keepTrace bool) hx.Result {
 			}
 		default:
 			report(cls+"|"+flabel+"|"+sc.kind, detail())
+		}
+	}
+	// a build that fails on its own (a document names a branch the repository does
+	// not have), sequential and with parallel shard builds: it must report the
+	// error and leave the old index
+	if sc.kind == "full" {
+		for _, par := range []int{1, 4} {
+			n++
+			d := filepath.Join(base, fmt.Sprintf("bad%d", n))
+			copyDir(oldDir, d)
+			o := c12Opts(d, 2, sc.newShard, sc)
+			o.Parallelism = par
+			var fe error
+			func() {
+				b, err := index.NewBuilder(o)
+				if err != nil {
+					fe = err
+					return
+				}
+				for i, dd := range sc.newDocs {
+					br := []string{"HEAD"}
+					if i == len(sc.newDocs)-1 {
+						br = []string{"no-such-branch"}
+					}
+					b.Add(index.Document{Name: dd.name, Content: []byte(dd.content), Branches: br})
+				}
+				fe = b.Finish()
+			}()
+			st := observe(d)
+			cls := classify(st)
+			res.Evals++
+			res.Offered["failing-build"]++
+			if fe == nil {
+				report("build-with-invalid-document-reports-success|"+sc.kind, fmt.Sprintf("parallelism %d: Finish returned nil although the last document names an unknown branch; %s", par, where()))
+			} else if cls != "old" {
+				res.Faults["failing-build"]++
+				report(fmt.Sprintf("failed-build-changed-the-installed-index|%s|parallelism-%d", cls, min(par, 2)), fmt.Sprintf("Finish=%v but the directory is %s: repo docs %v files %v; old=%v; %s", fe, cls, st.repoDocs("repo"), lsDir(d), oldState.repoDocs("repo"), where()))
+			} else {
+				res.Faults["failing-build"]++
+			}
+			os.RemoveAll(d)
 		}
 	}
 	for _, o := range ops {
